@@ -59,6 +59,10 @@ Step(e) ==
     \/ e.ev = "same_obs"    /\ ASameObs(e)
     \/ e.ev = "layout"      /\ ALayout(e)
     \/ e.ev = "forget"      /\ AForget(e)
+    \/ e.ev \in {"par_end", "sched_end"} /\ AStuck(e)
+    \/ e.ev = "par_begin"   /\ obs' = NoObs /\ Frame
+    \/ e.ev = "race_report" /\ ARace(e)
+    \/ e.ev = "wfault"      /\ AWFault(e)
     \/ e.ev = "reset"       /\ AReset
     \/ e.ev = "skip"        /\ obs' = NoObs /\ Frame
 
